@@ -7,7 +7,7 @@ CONFIG = {
     "level_note": "Trusted: Lean kernel + 3 standard axioms; kernel model of PTRACE_PEEKDATA/POKEDATA (word access succeeds iff all 8 bytes are mapped; a failing POKE leaves the bytes before the first unmapped page written; FOLL_FORCE ignores page protection) — sampled by the correspondence run; page-granular mappings; model<->code tie is sampling (generator distribution in evidence). The DAP JSON layer above write_bytes/parse_set_value (setVariable/setExpression/readMemory/writeMemory request handlers, variable lookup, serialize_dap_value for composites) is not exercised (see uncovered).",
     "runs": {"quick": [{"n": 1500}], "thorough": [{"n": 30000, "timeout": 6000}]},
     "trivial_answers": ["ok", "-", "bad-op", "", "err"],
-    "shrinkable": True,
+    "shrinkable": False,  # every replay step starts a live debuggee session (~5 s): the replay is the session prefix up to the failing request
     "rule": "boundary-exhaustive + seeded generator in the harness; a case is one request line (read / poke / DAP write / register get+set / disasm / parse_set_value / window checksum / the program's own checksums) executed on the real Debugger attached to a live debuggee and on the Lean model; distinct = different (request, answer); non-trivial = the answer carries data (bytes, checksums, register values), not only ok/err",
     "assumptions": [
         "Linux ptrace: PEEKDATA/POKEDATA at address a succeed iff [a,a+8) is mapped (any protection, FOLL_FORCE); a failing POKEDATA has written the bytes that precede the first unmapped page (sampled on the live debuggee)",
